@@ -334,7 +334,9 @@ def r_scenario(ctx, main):
         ctx.site(rid, "validate|" + cfgname, CLI, main.line, {"scenarios": n_eval})
     # compile-cddl: present file, parser verdict decides; missing file under --ci fails
     for ci in (False, True):
-        for st in ("ok", "fail", "missing"):
+        # "ok-unchecked": the parser (cddl_from_str) accepts the file, the stricter checked entry point (CDDL::from_slice / from_str, which also
+        # rejects undefined references and duplicate rules) does not — `compile-cddl` succeeds exactly when the *parser* accepts
+        for st in ("ok", "fail", "missing", "ok-unchecked"):
             log = []
 
             def on_call(kind, nm, node, args, recv, st=st, ci=ci):
@@ -356,10 +358,12 @@ def r_scenario(ctx, main):
                         return ("enum", "Cli", {"ci": ci, "command": ("enum", "Commands::CompileCddl", {"file": ("str", "s.cddl")})})
                     if nm == "Path::new":
                         return ("path", args[0])
-                    if nm in ("fs::read_to_string", "std::fs::read_to_string"):
+                    if nm in ("fs::read_to_string", "std::fs::read_to_string", "fs::read", "std::fs::read"):
                         return ("Ok", ("content", "s.cddl"))
                     if base == "cddl_from_str":
-                        return ("Ok", OPAQUE) if st == "ok" else ("Err", ("parse-error",))
+                        return ("Ok", OPAQUE) if st in ("ok", "ok-unchecked") else ("Err", ("parse-error",))
+                    if nm in ("CDDL::from_slice", "CDDL::from_str", "cddl::ast::CDDL::from_slice", "ast::CDDL::from_slice", "CDDL::try_from", "cddl::ast::CDDL::from_str"):
+                        return ("Ok", OPAQUE) if st == "ok" else ("Err", ("checked-entry-point-error",))
                     return NotImplemented
                 if kind == "method" and isinstance(recv, tuple) and recv[:1] == ("path",) and nm == "exists":
                     return st != "missing"
@@ -380,8 +384,9 @@ def r_scenario(ctx, main):
             ctx.site(rid, "compile-cddl|%s|ci=%s" % (st, ci), CLI, main.line, {"returns": "Err" if is_err else repr(res)[:20], "reports": [k for k, _ in log]})
             if is_err != want_err:
                 ctx.violation(rid, "compile-cddl|%s|ci=%s" % (st, ci), CLI, main.line, "compile-cddl on a file the parser %s (ci=%s) returns %s" %
-                              ({"ok": "accepts", "fail": "rejects", "missing": "cannot read: it is missing"}[st], ci, "Err" if is_err else "Ok"))
-            if st == "ok" and [k for k, _ in log] != ["info"]:
+                              ({"ok": "accepts", "fail": "rejects", "missing": "cannot read: it is missing",
+                                "ok-unchecked": "accepts (while the checked entry point CDDL::from_slice would reject it: an undefined reference)"}[st], ci, "Err" if is_err else "Ok"))
+            if st in ("ok", "ok-unchecked") and not is_err and [k for k, _ in log] != ["info"]:
                 ctx.violation(rid, "compile-cddl|report-ok", CLI, main.line, "compile-cddl on an accepted file reports %s" % [k for k, _ in log])
             if st == "fail" and "info" in [k for k, _ in log]:
                 ctx.violation(rid, "compile-cddl|report-fail", CLI, main.line, "compile-cddl reports conformance for a file the parser rejects")
